@@ -16,6 +16,7 @@ LAZY = os.path.join(VERIF, "lazy")
 MIRI = os.path.join(VERIF, "miri")
 BIN = os.path.join(VERIF, "target", "lazy", "release", "lazysim")
 DEFAULT_SEED = 3737842551
+REPO_DEFAULT = "/repo"
 M64 = (1 << 64) - 1
 
 
@@ -141,6 +142,30 @@ EXPECTED_CELLS = 7
 
 # one seed takes 4-6 minutes on this machine (more when all cores are busy); far beyond that the scenario is not terminating
 MIRI_TIMEOUT = 40 * 60
+
+# Constructs whose correctness under concurrency the shuttle half cannot judge (it only controls what goes
+# through its own primitives): raw atomics, interior mutability shared by hand, mutable statics. The pinned tree
+# has none of them outside the hook module. Their appearance is not a verdict; it makes the driver ask Miri too.
+RAW_SYNC = r"static\s+mut\b|UnsafeCell|\bAtomic[A-Z]\w*|Ordering::(Relaxed|Acquire|Release|AcqRel|SeqCst)|thread_local!|MaybeUninit|unsafe\s+impl\s+(Sync|Send)"
+
+
+def raw_sync_constructs():
+    import re
+    repo = os.environ.get("REPO", REPO_DEFAULT)
+    hits = []
+    for root, _, files in os.walk(os.path.join(repo, "src")):
+        for fn in files:
+            if not fn.endswith(".rs") or fn == "verif.rs":
+                continue
+            path = os.path.join(root, fn)
+            try:
+                text = open(path, errors="replace").read()
+            except OSError:
+                continue
+            for m in re.finditer(RAW_SYNC, text):
+                hits.append("%s: %s" % (os.path.relpath(path, repo), m.group(0)))
+    return hits
+
 
 MIRI_FLAGS = "-Zmiri-preemption-rate=0.05 -Zmiri-disable-stacked-borrows -Zmiri-disable-validation"
 
@@ -287,6 +312,12 @@ def main():
         results = [r for r in results if r[3] != "hung"]
         if miri_n == 0:
             miri_n = 4
+    raw = raw_sync_constructs()
+    if raw:
+        print("note: the crate now contains synchronisation constructs outside the simulated primitives (%s%s); "
+              "additionally deciding this tree with the Miri half" % (", ".join(raw[:3]), " ..." if len(raw) > 3 else ""))
+        if miri_n == 0:
+            miri_n = 4
     cells_seen = max([r[2].get("distinct_cells", 0) for r in results if r[2]] or [0])
     if results and cells_seen < EXPECTED_CELLS:
         print("note: only %d lazily initialised cells went through the simulated once_cell (expected %d): some shared state is "
@@ -393,6 +424,7 @@ def main():
             "missing_probes": missing,
             "shuttle_children_without_progress": len(hung),
             "lazy_cells_seen_by_stand_in": cells_seen,
+            "raw_synchronisation_constructs_in_crate": raw[:10],
             "simulated_time_note": "no clock in the crate; simulated time is the number of scheduling decisions (sim_steps)",
             "known_findings_seen": [],
         },
